@@ -614,6 +614,212 @@ pub fn sanamb(shard: usize, npieces: usize, with_pinner: bool, f: Sink) {
 }
 
 // ---------------------------------------------------------------------------------------------
+// PROMO2: two own pawns on the seventh rank that can both capture on the same promotion square
+
+/// shard = own king square * 2 + side
+pub const PROMO2_SHARDS: usize = 128;
+
+/// Pawns on files f-1 and f+1 of the seventh rank, an enemy man (N, B, R, Q) on (f, 8), own
+/// king anywhere, enemy king on 8 spread squares, and nothing or one enemy slider (B, R, Q)
+/// anywhere (pins one of the pawns, or gives a check that only one capture answers).
+pub fn promo2(shard: usize, f: Sink) {
+    let ok = shard / 2;
+    let stm = (shard % 2) as u8;
+    let own = stm;
+    let opp = 1 - stm;
+    let r7 = if own == 0 { 6 } else { 1 };
+    let r8 = if own == 0 { 7 } else { 0 };
+    for file in 1..7 {
+        for &victim in &[N, B, R, Q] {
+            let mut p = Pos::empty();
+            p.stm = stm;
+            p.b[sq(file - 1, r7)] = mk(own, P);
+            p.b[sq(file + 1, r7)] = mk(own, P);
+            p.b[sq(file, r8)] = mk(opp, victim);
+            if p.b[ok] != EMPTY {
+                continue;
+            }
+            p.b[ok] = mk(own, K);
+            for &ek in &SPREAD8 {
+                if p.b[ek] != EMPTY {
+                    continue;
+                }
+                let mut q = p;
+                q.b[ek] = mk(opp, K);
+                emit_if_valid(&q, f);
+                for x in 0..64 {
+                    if q.b[x] != EMPTY {
+                        continue;
+                    }
+                    for &sl in &[B, R, Q] {
+                        let mut r = q;
+                        r.b[x] = mk(opp, sl);
+                        emit_if_valid(&r, f);
+                    }
+                }
+            }
+        }
+    }
+}
+
+// ---------------------------------------------------------------------------------------------
+// PAWNCAP2: two own pawns on one file, each with something to capture on the same neighbour file
+
+/// shard = own king square * 2 + side
+pub const PAWNCAP2_SHARDS: usize = 128;
+
+/// Own pawns on (f, r1) and (f, r2), enemy knights diagonally ahead of both on the same
+/// neighbouring file, own king on a 4x4 lattice of squares, enemy king on 2 spread squares, nothing or one enemy
+/// slider anywhere: the abbreviated capture text "fg" names two pseudo-legal captures, of which
+/// zero, one or two are legal.
+pub fn pawncap2(shard: usize, f: Sink) {
+    let ok = shard / 2;
+    // own king on the 16 squares of a fixed 4x4 lattice (every other file and rank)
+    if file_of(ok) % 2 != 0 || rank_of(ok) % 2 != 1 {
+        return;
+    }
+    let stm = (shard % 2) as u8;
+    let own = stm;
+    let opp = 1 - stm;
+    let dir: i32 = if own == 0 { 1 } else { -1 };
+    // ranks from which a capture is not a promotion
+    let ranks: Vec<i32> = if own == 0 { (1..6).collect() } else { (2..7).collect() };
+    for file in 0..8i32 {
+        for df in [-1i32, 1] {
+            let tf = file + df;
+            if !(0..8).contains(&tf) {
+                continue;
+            }
+            for (i, &r1) in ranks.iter().enumerate() {
+                for &r2 in &ranks[i + 1..] {
+                    let mut p = Pos::empty();
+                    p.stm = stm;
+                    p.b[sq(file, r1)] = mk(own, P);
+                    p.b[sq(file, r2)] = mk(own, P);
+                    let (t1, t2) = (sq(tf, r1 + dir), sq(tf, r2 + dir));
+                    if p.b[t1] != EMPTY || p.b[t2] != EMPTY {
+                        continue;
+                    }
+                    p.b[t1] = mk(opp, N);
+                    p.b[t2] = mk(opp, N);
+                    if p.b[ok] != EMPTY {
+                        continue;
+                    }
+                    p.b[ok] = mk(own, K);
+                    for &ek in &SPREAD8[..2] {
+                        if p.b[ek] != EMPTY {
+                            continue;
+                        }
+                        let mut q = p;
+                        q.b[ek] = mk(opp, K);
+                        emit_if_valid(&q, f);
+                        for x in 0..64 {
+                            if q.b[x] != EMPTY {
+                                continue;
+                            }
+                            for &sl in &[B, R, Q] {
+                                let mut r = q;
+                                r.b[x] = mk(opp, sl);
+                                emit_if_valid(&r, f);
+                            }
+                        }
+                    }
+                }
+            }
+        }
+    }
+}
+
+// ---------------------------------------------------------------------------------------------
+// SANPIN: three own pieces of one kind, one of them pinned
+
+/// shard = own king square (16 squares of the a1-d4 quadrant) * 2 + side
+pub const SANPIN_SHARDS: usize = 32;
+
+/// Own king on a square of the a1-d4 quadrant; on one ray an own piece T at distance 1 or 2 and
+/// an enemy slider of the pinning kind one or two squares further; two more own pieces T within
+/// the 5x5 block around the pinned piece. T in {N, R, Q}. (The colour-swapped family comes
+/// with side = Black and the king quadrant mirrored.)
+pub fn sanpin(shard: usize, f: Sink) {
+    let stm = (shard % 2) as u8;
+    let own = stm;
+    let opp = 1 - stm;
+    let qi = shard / 2;
+    let (kf, kr0) = ((qi % 4) as i32, (qi / 4) as i32);
+    let kr = if own == 0 { kr0 } else { 7 - kr0 };
+    let k = sq(kf, kr);
+    for d in KG {
+        let rs = ray_squares(k, d);
+        for i in 0..rs.len().min(2) {
+            for j in (i + 1)..rs.len().min(i + 3) {
+                let diag = d.0 != 0 && d.1 != 0;
+                for &t in &[N, R, Q] {
+                    for &pinner in &[if diag { B } else { R }, Q] {
+                        let mut base = Pos::empty();
+                        base.stm = stm;
+                        base.b[k] = mk(own, K);
+                        base.b[rs[i]] = mk(own, t);
+                        base.b[rs[j]] = mk(opp, pinner);
+                        let ek = [63usize, 56, 7, 0, 36].iter().cloned().find(|&c| base.b[c] == EMPTY && ((file_of(c) - kf).abs() > 1 || (rank_of(c) - kr).abs() > 1));
+                        let Some(ek) = ek else { continue };
+                        base.b[ek] = mk(opp, K);
+                        let (pf, pr) = (file_of(rs[i]), rank_of(rs[i]));
+                        let mut block: Vec<usize> = Vec::new();
+                        for x in (pf - 2)..=(pf + 2) {
+                            for y in (pr - 2)..=(pr + 2) {
+                                if on(x, y) && base.b[sq(x, y)] == EMPTY {
+                                    block.push(sq(x, y));
+                                }
+                            }
+                        }
+                        for a in 0..block.len() {
+                            for b2 in (a + 1)..block.len() {
+                                let mut p = base;
+                                p.b[block[a]] = mk(own, t);
+                                p.b[block[b2]] = mk(own, t);
+                                emit_if_valid(&p, f);
+                            }
+                        }
+                    }
+                }
+            }
+        }
+    }
+}
+
+// ---------------------------------------------------------------------------------------------
+// CLOCKS: every value of each counter on a few positions
+
+/// 12 positions x all 65,536 half-move clocks (move number 7) and all 65,536 move numbers
+/// (clock 3); shard = chunk of 1024 values
+pub const CLOCKS_SHARDS: usize = 64;
+
+pub fn clocks(shard: usize, f: Sink) {
+    let fens = [
+        "r3k2r/8/8/8/8/8/8/R3K2R w KQkq - 0 1",
+        "r3k2r/8/8/8/8/8/8/R3K2R b KQkq - 0 1",
+        "4k3/8/8/8/8/8/4P3/4K3 w - - 0 1",
+        "4k3/4p3/8/8/8/8/8/4K3 b - - 0 1",
+        "4k3/8/8/8/8/8/8/4K1N1 w - - 0 1",
+        "7k/8/5KQ1/8/8/8/8/8 b - - 0 1",
+    ];
+    for fen in fens {
+        let base = read_fen(fen).expect("clock fen");
+        for i in 0..1024u32 {
+            let v = shard as u32 * 1024 + i;
+            let mut p = base;
+            p.hmc = v;
+            p.fmn = 7;
+            emit_if_valid(&p, f);
+            let mut q = base;
+            q.hmc = 3;
+            q.fmn = v;
+            emit_if_valid(&q, f);
+        }
+    }
+}
+
+// ---------------------------------------------------------------------------------------------
 // SANMANY: many own pieces of one kind that can all reach one target square
 
 /// shard = target square
